@@ -46,6 +46,10 @@ chk("C17","codecx","exploration",
     "All ordered pairs of per-kind boundary alphabets (Int ~400 values incl. every power of two +-1 and the varint format boundaries, Float64/Float32 incl. +-0, sub-normals, +-Inf and Nextafter neighbours, strings with 0x00/0xFF bytes and prefixes, nanosecond times, Bool) x {asc,desc}: sign(bytes.Compare(enc a, enc b)) = value order, null first, decode(encode v) = v; all pairs of (Int,String) tuples incl. nulls x 4 direction combinations through Encode/DecodeIndexDataStoreKey (order + split back into components); end-to-end: collections holding the alphabet in an indexed column, _gt/_ge/_lt/_le/_eq/_ne at every value and order asc/desc vs the scan twin.",
     "trusted: Go's own comparison of the value kinds; -0/+0 treated as one value (IEEE ==).", "exhaustive all-pairs enumeration over boundary alphabets on the real codec", "§4 C17")
 
+chk("C13","codecx","exploration",
+    "Schema/collection ids: every relation graph of primary links (incl. self and mutual links) over <=3 types with <=3 links (4 thorough) and 4 types with <=2 links (3 thorough): the (VersionID, CollectionID) assignment on a fresh database must be identical for a repeated run, every permutation of the SDL, reversed field order, every ordering of the partition into independent AddSchema calls, and every single deviating iteration order of the two map ranges in getSchemaSets (rewritten to an explorer-controlled iterator), plus all-reversed. Document ids: every subset of <=3 fields over 8 kinds x value alphabets x routes {JSON in every field permutation, JSON with explicit nulls for the other fields, Go map, GraphQL input, id actually stored}: one id per content.",
+    "trusted: the map-range rewrite of getSchemaSets (overlay); alphabets as listed; injectivity of ids is not part of the statement and only reported.", "bounded-exhaustive enumeration of construction routes and iteration orders on the implementation, differential oracle", "§4 C13")
+
 ALL = [f"C{i:02d}" for i in range(1, 21)]
 NA_REASON = "check not built yet in this round (work in progress; see DESIGN.md §4 for the planned exhaustive check)"
 
